@@ -8,7 +8,7 @@ Here: the `append` / `graftAt` lemmas and a first form of the theorem that takes
 C07's well-formedness of the *resulting* store as a hypothesis (it tells that `_update_path_to_root`
 starts at the graft point).  `StoreCache_addSubIn.lean` proves the form used by `cacheOK_step`, from
 `WFc` of the edited store only. -/
-namespace PhyModel.Store
+namespace PhyModel.Store.C06
 open PhyModel
 
 /-! ### `append`, `graftAt` -/
@@ -202,4 +202,4 @@ theorem cacheOK_addSub (dt : Data) (s sub s' : Store) (parent : Option Int) (hc 
     · exact (ROKx_mapRecs dt i (renameBy _) (renameBy_idx _) (renameBy_p _) (renameBy_r _) _).2
         (ROKx_graftAt dt i _ hgr _ hr)
 
-end PhyModel.Store
+end PhyModel.Store.C06
